@@ -159,6 +159,8 @@ class SelectShim(object):
             time.sleep(d)
         return real_select.select(rlist, wlist, xlist, timeout)
 
+    __call__ = select
+
 
 class SocketShim(object):
     """Replaces the ``socket`` module inside fsm: AE-1 gets a TapSocket."""
@@ -169,19 +171,27 @@ class SocketShim(object):
     def socket(self, *a, **kw):
         return TapSocket(real_socket.socket(*a, **kw), self.net, 'client')
 
+    def __call__(self, *a, **kw):
+        return self.socket(*a, **kw)
+
     def __getattr__(self, name):
         return getattr(real_socket, name)
 
 
 @contextlib.contextmanager
 def instrument(net):
-    saved = (dulprovider.select, fsm.socket)
-    dulprovider.select = SelectShim(net)
-    fsm.socket = SocketShim(net)
+    # the shims only speed the poll up, add delays and tap client sockets: when a name is not
+    # there (the library reaches select / socket some other way) the workload still runs
+    saved = {}
+    for mod, name, shim in ((dulprovider, 'select', SelectShim(net)), (fsm, 'socket', SocketShim(net))):
+        if hasattr(mod, name):
+            saved[(mod, name)] = getattr(mod, name)
+            setattr(mod, name, shim)
     try:
         yield net
     finally:
-        dulprovider.select, fsm.socket = saved
+        for (mod, name), old in saved.items():
+            setattr(mod, name, old)
 
 
 class TapServerMixin(object):
